@@ -1343,6 +1343,11 @@ pub struct HistoryIterator<'a> {
 	first_visible_seen: bool,
 	latest_is_hard_delete: bool,
 	barrier_seen: bool, // True once we hit HARD_DELETE or REPLACE
+	// Encoded internal key of the entry examined last. Two sources can hold
+	// the same record (a batch re-applied after a memtable rotation, a WAL
+	// segment replayed although part of it had been flushed); it is one
+	// version and is listed once.
+	last_examined_key: Vec<u8>,
 
 	// === Backward iteration state (buffered) ===
 	backward_buffer: Vec<BufferedEntry>,
@@ -1381,6 +1386,7 @@ impl<'a> HistoryIterator<'a> {
 			first_visible_seen: false,
 			latest_is_hard_delete: false,
 			barrier_seen: false,
+			last_examined_key: Vec::new(),
 			backward_buffer: Vec::new(),
 			backward_buffer_index: None,
 			ts_range,
@@ -1417,6 +1423,7 @@ impl<'a> HistoryIterator<'a> {
 		self.first_visible_seen = false;
 		self.latest_is_hard_delete = false;
 		self.barrier_seen = false;
+		self.last_examined_key.clear();
 	}
 
 	fn clear_backward_buffer(&mut self) {
@@ -1563,6 +1570,16 @@ impl<'a> HistoryIterator<'a> {
 				continue;
 			}
 
+			// The same record again, from another source
+			if self.inner_key().encoded() == self.last_examined_key.as_slice() {
+				self.inner_next()?;
+				continue;
+			}
+			let mut examined = std::mem::take(&mut self.last_examined_key);
+			examined.clear();
+			examined.extend_from_slice(self.inner_key().encoded());
+			self.last_examined_key = examined;
+
 			// Detect user_key change → reset state
 			if user_key_vec != self.current_user_key {
 				self.current_user_key = user_key_vec;
@@ -1685,6 +1702,12 @@ impl<'a> HistoryIterator<'a> {
 
 			if key_ref.user_key() != user_key.as_slice() {
 				break;
+			}
+
+			// The same record again, from another source
+			if versions.last().is_some_and(|v| v.encoded_key.as_slice() == key_ref.encoded()) {
+				self.inner_prev()?;
+				continue;
 			}
 
 			let seq_num = key_ref.seq_num();
